@@ -363,9 +363,17 @@ def glue_allowed(a, b):
     return False
 
 
-def listing(text):
+POISON = ['set "M" begin stage row', 'repeat 2 begin define q9 begin if {1 > 0} begin', 'define q8 with a begin set "M" begin hue', 'hue {1 + (2']
+
+
+def listing(text, used=None):
+    """Instruction listing of text; with `used`, on that Parser object after it has compiled a text that was rejected
+    half-way (what a compiler object did before must not matter)."""
     world.configure(())
-    p = Parser()
+    p = Parser() if used is None else used
+    if used is not None:
+        for bad in POISON:
+            p.parse(bad)
     ok = p.parse(text)
     if not ok:
         return None, p.get_errors()
@@ -386,6 +394,7 @@ def layout_worker(args):
     abbreviable = {'hue': 'H', 'saturation': 'S', 'brightness': 'B', 'kelvin': 'K'}
     rng = random.Random(args['seed'])
     seen = set()
+    used_parser = Parser()
 
     def harness(ctx):
         mode = ctx.choose(3, 'mode')
@@ -419,6 +428,10 @@ def layout_worker(args):
         symx.Ctx.cur = None
         try:
             got, err = listing(text)
+            if got == canon and len(seen) % 7 == 0:
+                got, err = listing(text, used_parser)
+                if got != canon:
+                    err = '(on a compiler object that had rejected other texts before) ' + (err or '')
         except Exception as ex:
             got, err = None, 'compiler raises %s: %s' % (type(ex).__name__, ex)
         finally:
